@@ -74,10 +74,62 @@ def count_crossings(closed, O):
 
 # ----------------------------------------------------------------------------- open polyline families
 FAMILIES = ['walk', 'through', 'inside-out', 'zigzag-flat', 'axis', 'shared-y', 'near-edge', 'two-point',
-            'flat-extremum', 'flat-extremum']
-# polylines that are NOT in general position among themselves (overlapping collinear segments, first = last): outside the
-# quantifier of C05; generated for a minority of the cases and evaluated as observations only
-DEGENERATE_FAMILIES = ['spike', 'loop', 'horz-spike', 'horz-spike']
+            'flat-extremum', 'flat-extremum', 'peak-horz', 'peak-horz']
+# shapes of the BROAD judged class (closed paths in general position, open polylines arbitrary): open vertices 0..3 units from
+# the closed edge the path has just crossed, hairpins 1-2 units wide through an edge, vertices grazing an edge, fold-backs,
+# first = last loops.  1 case in 4; never scaled (scaling would move them out of "near"), only translated.
+BROAD_FAMILIES = ['near-cross', 'near-cross', 'near-cross', 'hairpin', 'hairpin', 'graze', 'spike', 'loop', 'horz-spike', 'horz-spike']
+DEGENERATE_FAMILIES = BROAD_FAMILIES
+BROAD_OFFSETS = [0, 0, 1000, 10 ** 6, 2 ** 29, 2 ** 39, 2 ** 51]
+
+
+def _edge_frame(rng, closed):
+    """a point P on a closed edge (float), unit tangent and unit normal"""
+    es = [e for p in closed for e in cyc_edges(p)]
+    a, b = rng.choice(es)
+    t = rng.range(15, 85) / 100.0
+    dx, dy = b[0] - a[0], b[1] - a[1]
+    L = max(1e-9, (dx * dx + dy * dy) ** 0.5)
+    return (a[0] + t * dx, a[1] + t * dy), (dx / L, dy / L), (-dy / L, dx / L)
+
+
+def _at(P, T, N, u, v):
+    return (int(round(P[0] + T[0] * u + N[0] * v)), int(round(P[1] + T[1] * u + N[1] * v)))
+
+
+def broad_path(rng, closed, box, fam):
+    P, T, N = _edge_frame(rng, closed)
+    s = rng.choice([-1, 1])
+    if fam == 'near-cross':
+        # ... far point, [more points], a vertex 0..3 units beyond the edge just crossed, then 1 (mostly) or 2 more points on that side
+        d = rng.range(0, 300) / 100.0
+        pts = [_at(P, T, N, rng.range(-40, 40), -s * rng.range(15, 110))]
+        if rng.chance(1, 3):
+            pts.insert(0, _at(P, T, N, rng.range(-80, 80), -s * rng.range(20, 130)))
+        pts.append(_at(P, T, N, 0, s * d))
+        pts.append(_at(P, T, N, rng.range(-60, 60), s * rng.range(8, 90)))
+        if rng.chance(1, 4):
+            pts.append(_at(P, T, N, rng.range(-60, 60), s * rng.range(8, 90)))
+        if rng.chance(1, 2):
+            pts.reverse()
+        return pts
+    if fam == 'hairpin':
+        # in through the edge and out again 1-2 units further along it (three points, or with a tail)
+        w = rng.choice([1, 1, 2, 2, 3])
+        depth = rng.range(5, 80)
+        out = rng.range(10, 110)
+        A = _at(P, T, N, 0, -s * out)
+        apex = _at(P, T, N, rng.range(0, 1), s * depth)
+        B = _at(P, T, N, w, -s * (out + rng.range(-5, 5)))
+        pts = [A, apex, B]
+        if rng.chance(1, 4):
+            pts.append(_at(P, T, N, rng.range(-50, 50), -s * rng.range(20, 120)))
+        return pts
+    if fam == 'graze':
+        # approaches an edge to within 0..3 units and turns back without (or barely) crossing
+        d = rng.range(-100, 300) / 100.0
+        return [_at(P, T, N, -rng.range(20, 90), -s * rng.range(10, 90)), _at(P, T, N, 0, -s * d), _at(P, T, N, rng.range(20, 90), -s * rng.range(10, 90))]
+    return open_path(rng, closed, box, fam)
 
 
 def _interior_point(rng, closed, box):
@@ -147,6 +199,24 @@ def open_path(rng, closed, box, fam):
         if rng.chance(4, 5):
             side2 = side if rng.chance(2, 3) else -side
             pts.append((x + rng.range(-30, 30), y + side2 * rng.range(5, 60)))
+        return pts
+    if fam == 'peak-horz':
+        # one arm up to a peak, one edge down, then a horizontal segment that crosses the first arm (a proper self-crossing next to
+        # a horizontal at the end or in the middle of a bound); mirrored in y and reversed at random
+        x0, xp = rng.range(-box, box), rng.range(-box, box)
+        y0 = rng.range(40, box + 20)
+        yp = y0 - rng.range(80, 2 * box)
+        yh = rng.range(yp + 20, y0 - 15)
+        x2 = xp + rng.choice([-1, 1]) * rng.range(25, box)
+        xa = x0 + (xp - x0) * (yh - y0) // (yp - y0)          # x of the first arm on the horizontal's scanline
+        x3 = xa - (1 if x2 > xa else -1) * rng.range(15, box)
+        pts = [(x0, y0), (xp, yp), (x2, yh), (x3, yh)]
+        if rng.chance(1, 2):
+            pts.append((x3 + rng.range(-40, 40), yh + rng.choice([-1, 1]) * rng.range(10, 80)))
+        if rng.chance(1, 2):
+            pts = [(x, -y) for x, y in pts]
+        if rng.chance(1, 2):
+            pts.reverse()
         return pts
     if fam == 'axis':            # exactly horizontal and vertical segments (incl. an entirely flat polyline)
         x, y = polys.rand_pt(rng, box)
@@ -242,11 +312,16 @@ def gen_open_case(rng, box=120, tries=60):
             continue
         O, fams = [], []
         want = rng.range(1, 3)
-        degenerate = rng.chance(1, 8)      # a minority of cases outside the hypothesis (observed, never a violation)
+        broad = rng.chance(1, 4)           # the broad judged class: open polylines near closed edges / folding back
         for _ in range(tries):
-            fam = rng.choice(DEGENERATE_FAMILIES if degenerate and not O else FAMILIES)
-            p = dedup(open_path(rng, closed, box, fam))
-            if len(p) >= 2 and gp_open_py(closed, [p]) and (degenerate or open_self_clear_py(O + [p])):
+            fam = rng.choice(BROAD_FAMILIES if broad and (not O or rng.chance(1, 2)) else FAMILIES)
+            if fam in BROAD_FAMILIES:
+                p = dedup(broad_path(rng, closed, box, fam))
+                ok = len(p) >= 2
+            else:
+                p = dedup(open_path(rng, closed, box, fam))
+                ok = len(p) >= 2 and gp_open_py(closed, [p]) and (broad or open_self_clear_py(O + [p]))
+            if ok:
                 O.append(p)
                 fams.append(fam)
                 if len(O) >= want:
@@ -256,13 +331,13 @@ def gen_open_case(rng, box=120, tries=60):
         nx = count_crossings(closed, O)
         if nx == 0 and not rng.chance(1, 10):
             continue                       # mostly cases where something is actually cut
-        return S, C, O, dict(kinds=kinds, fams=fams, crossings=nx)
-    return [], [polys.rect(-40, -40, 30, 35)], [[(-60, -3), (50, 11)]], dict(kinds=(-1, -1), fams=['fallback'], crossings=2)
+        return S, C, O, dict(kinds=kinds, fams=fams, crossings=nx, broad=broad)
+    return [], [polys.rect(-40, -40, 30, 35)], [[(-60, -3), (50, 11)]], dict(kinds=(-1, -1), fams=['fallback'], crossings=2, broad=False)
 
 
 def horz_spike(O):
-    """label for observations outside the hypothesis: some open path has two consecutive horizontal segments of opposite
-    direction (a horizontal 180-degree spike; DoHorizontal meets the maxima pair too early, see triage/C05.md)"""
+    """some open path has two consecutive horizontal segments of opposite direction (a horizontal 180-degree spike; before the
+    fix of DoHorizontal the maxima pair was met too early, see triage/C05.md)"""
     for p in O:
         for i in range(len(p) - 2):
             a, b, c = p[i], p[i + 1], p[i + 2]
